@@ -257,7 +257,7 @@ def run(ctx):
         cf["logs"] += 1
         conforms, hyps, ook = md.get("conf") == "true", md.get("hyps") == "true", md.get("order_ok") == "true"
         cf["conform"] += conforms; cf["end_state_hypotheses_hold"] += (conforms and hyps)
-        cf["order_ok"] = ook
+        cf["order_safe"] += ook
         if conforms and hyps and ook:
             cf["theorem_applies"] += 1
             if not disc:
